@@ -7,6 +7,7 @@ import (
 	"context"
 	"encoding/json"
 	"fmt"
+	"io"
 	"math/rand/v2"
 	"sort"
 	"strings"
@@ -56,6 +57,28 @@ func TreeSuccessors(ctx context.Context, fetcher content.Fetcher, desc ocispec.D
 	var doc TreeDoc
 	if err := json.Unmarshal(b, &doc); err != nil {
 		return nil, err
+	}
+	return doc.Children, nil
+}
+
+// StreamTreeSuccessors is TreeSuccessors with a streaming decoder: it stops reading at the end of the
+// JSON value (no read ever returns EOF) and closes the reader.
+func StreamTreeSuccessors(ctx context.Context, fetcher content.Fetcher, desc ocispec.Descriptor) ([]ocispec.Descriptor, error) {
+	if desc.MediaType != MTTree {
+		return content.Successors(ctx, fetcher, desc)
+	}
+	rc, err := fetcher.Fetch(ctx, desc)
+	if err != nil {
+		return nil, err
+	}
+	var doc TreeDoc
+	derr := json.NewDecoder(io.LimitReader(rc, desc.Size)).Decode(&doc)
+	cerr := rc.Close()
+	if derr != nil {
+		return nil, derr
+	}
+	if cerr != nil {
+		return nil, cerr
 	}
 	return doc.Children, nil
 }
